@@ -959,6 +959,18 @@ func (e *c13Env) runFindText(cs *c13Case) {
 			c.Violation("C13/findtext/wrong-header", "FindTextProgHeader returned a header that is not an executable PT_LOAD containing .text", cs)
 		}
 	}
+	if h == nil {
+		// direct oracle, other direction: an executable PT_LOAD holding a .text address must be found
+		for _, a := range cs.TextAddrs {
+			for i := range phdrs {
+				p := phdrs[i]
+				if p.Type == elf.PT_LOAD && p.Flags&elf.PF_X != 0 && uint64(a) >= p.Vaddr && uint64(a) < p.Vaddr+p.Memsz {
+					c.Violation("C13/findtext/missed", fmt.Sprintf("FindTextProgHeader returned nil although executable PT_LOAD #%d [%#x,+%#x) contains the .text address %#x", i, p.Vaddr, p.Memsz, uint64(a)), cs)
+					return
+				}
+			}
+		}
+	}
 	c.Res.Hit("findtext:" + c13FirstWord(g))
 	var sb strings.Builder
 	sb.WriteString(strconv.Itoa(len(cs.TextAddrs)))
